@@ -6,7 +6,11 @@ entries of the table are equal and bisect_left returns the FIRST of them, i.e.
 the empty sub-sequence, so the first element of the following sub-sequence
 cannot be indexed: MergedSequences([[], [1, 2]])[0] raises IndexError, and so
 does SequenceDataSource.from_sequences([[1], [], [2, 3]])[1]-style access and
-any negative index that lands there. Iteration and slicing are not affected.
+any negative index that lands there. Iteration is not affected.
+
+Slicing (R-C09-9): the raw bounds of a slice were looked up as positions, so
+negative bounds beyond the length and reversed bounds yielded elements where
+the concatenation has none ([[1, 2], [3]][-1:0] gave [3]).
 
 exit 0 = indexes like the concatenation, exit 1 = not.
 """
@@ -30,10 +34,16 @@ def main():
         got = repr(e)
       if got != cat[i]:
         bad.append((seqs, i, got, cat[i]))
-    for a in range(len(cat) + 1):
-      for b in range(a, len(cat) + 1):
-        if list(ms[a:b]) != cat[a:b]:
-          bad.append((seqs, (a, b), list(ms[a:b]), cat[a:b]))
+    n = len(cat)
+    bounds = list(range(-n - 2, n + 3)) + [None]
+    for a in bounds:
+      for b in bounds:
+        try:
+          got = list(ms[a:b])
+        except Exception as e:  # pylint: disable=broad-exception-caught
+          got = repr(e)
+        if got != cat[a:b]:
+          bad.append((seqs, (a, b), got, cat[a:b]))
     if list(ms) != cat or len(ms) != len(cat):
       bad.append((seqs, 'iter/len'))
   for b in bad[:8]:
